@@ -316,7 +316,9 @@ def shared_layout(ctx):
                     'find_routine no longer selects the routine whose code '
                     'range contains the address', fr.file, fr.line)
     cs = repo.func('qvm.cpu', 'QvmCpu._exec_frame')
-    ok = 'code_start=self.pc' in unparse(cs.node)
+    ok = any(isinstance(c, ast.Call) and any(
+        k.arg == 'code_start' and unparse(k.value) == 'self.pc'
+        for k in c.keywords) for c in ast.walk(cs.node))
     ctx.instance(rule, f'{cs.file}:QvmCpu._exec_frame:code_start')
     if not ok:
         ctx.finding(rule, f'{cs.file}:QvmCpu._exec_frame:code_start',
